@@ -11,6 +11,7 @@
 //! drops the rest of its own line) and K2 (a read stream closes with its last real line instead
 //! of after the empty line TeX appends).
 
+use std::collections::BTreeMap;
 use serde::{Deserialize, Serialize};
 
 use crate::c01::{add_fault_counters, components_json, panic_site};
@@ -524,6 +525,10 @@ pub enum SOp {
     /// Interaction mode (0 errorstop, 1 scroll, 2 nonstop, 3 batch): the terminal cannot be read in
     /// the last two (TeX: "cannot \\read from terminal in nonstop modes"); not scoped by groups.
     Mode(u8),
+    /// Environment event, not a TeX command: the file is replaced on disk before the (empty) line
+    /// that stands for this op runs. Streams that are open keep what they opened; the next
+    /// `\\openin` sees the new content.
+    Rewrite { file: usize, content: String },
 }
 
 #[derive(Clone, Debug, Serialize, Deserialize)]
@@ -627,6 +632,7 @@ struct StreamModel {
     fs_reads: u64,
     bang: Vec<bool>,
     mode: u8,
+    rewritten: BTreeMap<usize, String>,
 }
 
 struct Expect {
@@ -645,6 +651,7 @@ impl StreamModel {
             fs_reads: 0,
             bang: vec![false],
             mode: 0,
+            rewritten: BTreeMap::new(),
         }
     }
     fn lines_for(&self, content: &str) -> Vec<String> {
@@ -663,7 +670,13 @@ impl StreamModel {
             SOp::OpenIn { n, file } => {
                 self.fs_reads += 1;
                 let (content, missing, fault) = &case.files[*file];
-                self.streams[*n as usize] = if *missing || fault.is_some() {
+                // a replaced file exists (it may have been missing before) but stays unreadable
+                // if reading its path fails
+                let (content, missing) = match self.rewritten.get(file) {
+                    Some(c) => (c, false),
+                    None => (content, *missing),
+                };
+                self.streams[*n as usize] = if missing || fault.is_some() {
                     None
                 } else {
                     Some((self.lines_for(content), 0))
@@ -690,6 +703,9 @@ impl StreamModel {
             }
             SOp::BangComment(b) => *self.bang.last_mut().unwrap() = *b,
             SOp::Mode(m) => self.mode = *m,
+            SOp::Rewrite { file, content } => {
+                self.rewritten.insert(*file, content.clone());
+            }
             SOp::Read { n, target } => {
                 let bang = *self.bang.last().unwrap();
                 let idx = if (0..16).contains(n) { Some(*n as usize) } else { None };
@@ -841,6 +857,7 @@ fn sop_text(op: &SOp) -> String {
         SOp::End => "}".to_string(),
         SOp::BangComment(b) => format!("\\catcode33={} ", if *b { 14 } else { 12 }),
         SOp::Mode(m) => ["\\errorstopmode ", "\\scrollmode ", "\\nonstopmode ", "\\batchmode "][*m as usize % 4].to_string(),
+        SOp::Rewrite { .. } => "\\relax ".to_string(),
     }
 }
 
@@ -868,7 +885,11 @@ fn stream_job(case: &StreamCase) -> (Job, Vec<(usize, usize)>) {
     // returns job and, per job line, (op index, kind) where kind 0 = op, 1 = eof probe, 2+t = target probe
     let mut lines = vec![STREAM_PREAMBLE.to_string()];
     let mut index = vec![(usize::MAX, 0)];
+    let mut file_updates = vec![];
     for (i, op) in case.ops.iter().enumerate() {
+        if let SOp::Rewrite { file, content } = op {
+            file_updates.push((lines.len(), stream_file_disk(*file), content.clone().into_bytes()));
+        }
         lines.push(format!("{}%", sop_text(op)));
         index.push((i, 0));
         lines.push(eof_probe_line());
@@ -905,7 +926,7 @@ fn stream_job(case: &StreamCase) -> (Job, Vec<(usize, usize)>) {
                 .filter_map(|(i, (_, _, f))| f.map(|k| (stream_file_disk(i), k)))
                 .collect(),
             fs_write_faults: vec![],
-            file_updates: vec![],
+            file_updates,
         },
         clock: Clock::default(),
         real_state: false,
@@ -1057,10 +1078,24 @@ fn gen_streams(rng: &mut Rng, with_faults: bool) -> StreamCase {
                 SOp::CloseIn { n }
             }
         } else {
-            if rng.chance(1, 2) {
-                SOp::BangComment(rng.chance(1, 2))
-            } else {
-                SOp::Mode(rng.below(4) as u8)
+            match rng.below(3) {
+                0 => SOp::BangComment(rng.chance(1, 2)),
+                1 => SOp::Mode(rng.below(4) as u8),
+                _ => {
+                    // the file is replaced by another draw from the same line vocabulary
+                    let n = rng.below(5);
+                    let mut c = String::new();
+                    for k in 0..n {
+                        c.push_str(vocab[rng.below(vocab.len())]);
+                        if k + 1 < n || rng.chance(2, 3) {
+                            c.push('\n');
+                        }
+                    }
+                    SOp::Rewrite {
+                        file: rng.below(nfiles),
+                        content: c,
+                    }
+                }
             }
         });
     }
